@@ -100,7 +100,7 @@ namespace GeographicLib {
       k2 = base::_e2;
     }
     real x = Xn.radians(), y = Yn.radians(), d = y - x,
-      sx = Xn.y(), sy = Yn.y(), cx = Xn.x(), cy = Yn.x();
+      sx = Xn.y(), sy = Yn.y();
     // See DLMF: Eqs (19.11.2) and (19.11.4) letting
     // theta -> x, phi -> -y, psi -> z
     //
@@ -112,8 +112,10 @@ namespace GeographicLib {
     //          = t = d * Dt
     // Delta(x) = sqrt(1 - k2 * sin(x)^2)
     // sin(z) = 2*t/(1+t^2); cos(z) = (1-t^2)/(1+t^2)
-    real Dt = Dsin(x, y) * (sx + sy) /
-      ((cx + cy) * (sx * sqrt(1 - k2 * sy*sy) + sy * sqrt(1 - k2 * sx*sx))),
+    // Dsin(x,y) / (cos(x) + cos(y)) = sinc(d/2) / (2*cos(d/2)); this form
+    // retains full relative accuracy for x and y close to pi/2
+    real Dt = (d != 0 ? sin(d/2) / (d/2) : 1) / (2 * cos(d/2)) * (sx + sy) /
+      (sx * sqrt(1 - k2 * sy*sy) + sy * sqrt(1 - k2 * sx*sx)),
       t = d * Dt, Dsz = 2 * Dt / (1 + t*t),
       sz = d * Dsz, cz = (1 - t) * (1 + t) / (1 + t*t),
       sz2 = sz*sz, cz2 = cz*cz, dz2 = 1 - k2 * sz2,
